@@ -170,6 +170,7 @@ type mnode struct {
 	kids    []*mnode
 	wrapped bool // OCTET STRING whose content is DER (kids hold it)
 	cons    bool
+	raw     bool // content is emitted as it is even for a constructed identifier (truncated inner structure)
 }
 
 func toTree(b []byte, depth int) ([]*mnode, bool) {
@@ -199,7 +200,7 @@ func toTree(b []byte, depth int) ([]*mnode, bool) {
 
 func (m *mnode) enc() []byte {
 	c := m.content
-	if m.cons || m.wrapped {
+	if (m.cons || m.wrapped) && !m.raw {
 		c = nil
 		for _, k := range m.kids {
 			c = append(c, k.enc()...)
@@ -220,8 +221,14 @@ func flatten(ns []*mnode, parent *mnode, out *[]struct{ n, p *mnode }) {
 
 var primRepl = [][]byte{{}, {0x00}, {0xff}, {0x7f}, {0x80}, {0xff, 0xff, 0xff, 0xff, 0xff}, {0, 0, 0, 0, 0, 0, 0, 0, 0}, {0x80, 0, 0, 0, 0}, {0x7f, 0xff, 0xff, 0xff, 0xff, 0xff, 0xff, 0xff}}
 
-const treeOps = 8     // empty, drop, duplicate, keep-first-kid, tag+1, tag-1, toggle-constructed, replace-with-NULL
-func treeOpsFor() int { return treeOps + len(primRepl) }
+const treeOps = 8 // empty, drop, duplicate, keep-first-kid, tag+1, tag-1, toggle-constructed, replace-with-NULL
+
+// truncOps: the element keeps its header and position, its content is cut to 1, 2, 3, 4 bytes or loses its last 1, 2
+// bytes, and every enclosing length is recomputed: the outer structure stays well-formed while the inner one ends
+// in the middle of a header or a value (what a prefix of the whole message cannot produce)
+var truncOps = []int{1, 2, 3, 4, -1, -2}
+
+func treeOpsFor() int { return treeOps + len(primRepl) + len(truncOps) }
 
 func treeMutant(seed []byte, i int) []byte {
 	roots, ok := toTree(seed, 0)
@@ -285,6 +292,23 @@ func treeMutant(seed []byte, i int) []byte {
 		}
 	case op == 7:
 		n.hdr, n.cons, n.wrapped, n.kids, n.content = 0x05, false, false, nil, nil
+	case op >= treeOps+len(primRepl):
+		c := n.content
+		if n.cons || n.wrapped {
+			c = nil
+			for _, k := range n.kids {
+				c = append(c, k.enc()...)
+			}
+		}
+		k := truncOps[op-treeOps-len(primRepl)]
+		if k < 0 {
+			k = len(c) + k
+		}
+		if k <= 0 || k >= len(c) {
+			return nil
+		}
+		// keep the identifier octet (constructed bit included); the content is now raw bytes
+		n.raw, n.content, n.kids = true, append([]byte{}, c[:k]...), nil
 	default:
 		if n.cons {
 			return nil
